@@ -1154,21 +1154,31 @@ fn traverse_nonterminal_dependencies_dfs(
     result: &mut Vec<Ustr>,
 ) -> Result<()> {
     visited.insert(vertex);
+    #[cfg(feature = "verif")]
+    crate::verif::emit(|| format!(r#"{{"ev":"ro_enter","v":"{vertex}"}}"#));
     let dummy = UstrMap::default();
     for (child, span) in graph.get(&vertex).unwrap_or(&dummy) {
         if path.iter().any(|(chld, _)| chld == child) {
+            #[cfg(feature = "verif")]
+            crate::verif::emit(|| format!(r#"{{"ev":"ro_edge","v":"{vertex}","c":"{child}","k":"cycle"}}"#));
             path.push((vertex, *span));
             return Err(Error::NonterminalDefinitionsCycle(
                 path.iter().map(|(_, span)| *span).collect(),
             ));
         }
         if visited.contains(child) {
+            #[cfg(feature = "verif")]
+            crate::verif::emit(|| format!(r#"{{"ev":"ro_edge","v":"{vertex}","c":"{child}","k":"seen"}}"#));
             continue;
         }
+        #[cfg(feature = "verif")]
+        crate::verif::emit(|| format!(r#"{{"ev":"ro_edge","v":"{vertex}","c":"{child}","k":"descend"}}"#));
         path.push((*child, *span));
         traverse_nonterminal_dependencies_dfs(*child, graph, path, visited, result)?;
         path.pop().unwrap();
         result.push(*child);
+        #[cfg(feature = "verif")]
+        crate::verif::emit(|| format!(r#"{{"ev":"ro_emit","v":"{child}"}}"#));
     }
     Ok(())
 }
@@ -1190,6 +1200,18 @@ fn get_nonterminals_resolution_order(
         dependency_graph.insert(*varname, refs);
     }
 
+    #[cfg(feature = "verif")]
+    crate::verif::emit(|| {
+        let vs: Vec<String> = dependency_graph
+            .iter()
+            .map(|(v, cs)| {
+                let cs: Vec<String> = cs.keys().map(|c| format!(r#""{c}""#)).collect();
+                format!(r#"["{v}",[{}]]"#, cs.join(","))
+            })
+            .collect();
+        format!(r#"{{"ev":"ro_init","graph":[{}]}}"#, vs.join(","))
+    });
+
     let mut visited: UstrSet = Default::default();
     let mut result: Vec<Ustr> = Default::default();
     let mut path: Vec<(Ustr, HumanSpan)> = Default::default();
@@ -1204,6 +1226,8 @@ fn get_nonterminals_resolution_order(
             if visited.contains(&vertex) {
                 continue;
             }
+            #[cfg(feature = "verif")]
+            crate::verif::emit(|| format!(r#"{{"ev":"ro_root","v":"{vertex}","ph":"allcyc"}}"#));
             path.push((
                 vertex,
                 nonterminal_definitions.get(&vertex).unwrap().lhs_span,
@@ -1222,6 +1246,8 @@ fn get_nonterminals_resolution_order(
 
     for vertex in not_depended_on_vars {
         debug_assert!(!visited.contains(&vertex));
+        #[cfg(feature = "verif")]
+        crate::verif::emit(|| format!(r#"{{"ev":"ro_root","v":"{vertex}","ph":"roots"}}"#));
         path.push((
             vertex,
             nonterminal_definitions.get(&vertex).unwrap().lhs_span,
@@ -1235,6 +1261,8 @@ fn get_nonterminals_resolution_order(
         )?;
         path.clear();
         result.push(vertex);
+        #[cfg(feature = "verif")]
+        crate::verif::emit(|| format!(r#"{{"ev":"ro_emit","v":"{vertex}"}}"#));
         debug_assert!(path.is_empty());
     }
 
@@ -1248,6 +1276,8 @@ fn get_nonterminals_resolution_order(
         if visited.contains(&vertex) {
             continue;
         }
+        #[cfg(feature = "verif")]
+        crate::verif::emit(|| format!(r#"{{"ev":"ro_root","v":"{vertex}","ph":"rest"}}"#));
         path.push((
             vertex,
             nonterminal_definitions.get(&vertex).unwrap().lhs_span,
@@ -1261,6 +1291,8 @@ fn get_nonterminals_resolution_order(
         )?;
         path.clear();
         result.push(vertex);
+        #[cfg(feature = "verif")]
+        crate::verif::emit(|| format!(r#"{{"ev":"ro_emit","v":"{vertex}"}}"#));
     }
 
     // Filter out nonterminals that don't depend on any other as they are already fully resolved.
@@ -1269,6 +1301,12 @@ fn get_nonterminals_resolution_order(
             .get(vertex)
             .map(|children| !children.is_empty())
             .unwrap_or(true)
+    });
+
+    #[cfg(feature = "verif")]
+    crate::verif::emit(|| {
+        let vs: Vec<String> = result.iter().map(|v| format!(r#""{v}""#)).collect();
+        format!(r#"{{"ev":"ro_done","order":[{}]}}"#, vs.join(","))
     });
 
     Ok(result)
